@@ -49,7 +49,7 @@ for p in parts:
         if k.startswith("fault_") or k.startswith("window_") or k.startswith("probe_") or k in ("gui_impatient_stop", "ucinewgame", "clock_jumps"):
             fired[k] = fired.get(k, 0) + v
 merged["coverage"]["faults_fired"] = fired
-if prop == "C10" and tier == "thorough":
+if prop == "C10":
     try:
         merged["coverage"]["valgrind"] = json.load(open("build/ev/valgrind.json"))
     except Exception:
